@@ -41,9 +41,35 @@ ALIASES = ['Alpha', 'Beta', 'Gamma', 'Imp1', 'Imp2', 'Other_p', 'Zeta9']
 _tmp = {}
 
 
+PREFIX = 'lv_parser_imports_'
+
+
+def _sweep_stale():
+    """directories left behind by workers that were killed (wall limit): their pid,
+    part of the directory name, is gone."""
+    base = tempfile.gettempdir()
+    try:
+        names = os.listdir(base)
+    except OSError:
+        return
+    for name in names:
+        if not name.startswith(PREFIX):
+            continue
+        try:
+            pid = int(name[len(PREFIX):].split('_')[0])
+            os.kill(pid, 0)
+        except ValueError:
+            continue
+        except ProcessLookupError:
+            shutil.rmtree(os.path.join(base, name), ignore_errors=True)
+        except OSError:
+            continue
+
+
 def tmp_root():
     if 'root' not in _tmp:
-        _tmp['root'] = tempfile.mkdtemp(prefix='lv_c06_imports_')
+        _sweep_stale()
+        _tmp['root'] = tempfile.mkdtemp(prefix='%s%d_' % (PREFIX, os.getpid()))
         _tmp['n'] = 0
     return _tmp['root']
 
